@@ -1,7 +1,7 @@
 (* C36 — Each received notification is acknowledged exactly once.  Statements only. *)
 From Coq Require Import List ZArith Permutation.
 Import ListNotations.
-From OV Require Import C36.Model C36.Proofs.
+From OV Require Import C36.Model C36.Proofs C36.Sound.
 Open Scope Z_scope.
 
 (* For every interleaving of publish calls, successful responses and failures (any number in
@@ -45,6 +45,26 @@ Theorem C36_neutral_operations : forall (s : st) (o : op),
   step s o = s.
 Proof. exact down_and_subscription_changes_are_neutral. Qed.
 Print Assumptions C36_neutral_operations.
+
+(* The oracle IS the property, for any output and without reference to the model: whatever
+   observation sequence it accepts -- the implementation's, which the driver feeds it -- has a
+   complete ledger in which every received number is in exactly one place: acknowledged by an
+   OBSERVED request that succeeded, carried by an observed request still in flight, or waiting;
+   and no number is acknowledged more often than it was received. *)
+Theorem C36_oracle_sound : forall (c : case) (out : list Z), oracle c out = true ->
+  exists a i s r, ledger [] [] [] [] c out = Some (a, i, s, r) /\
+                  Permutation r (concat s ++ concat i ++ a).
+Proof. exact oracle_sound. Qed.
+Print Assumptions C36_oracle_sound.
+
+Theorem C36_oracle_sound_never_twice : forall (c : case) (out : list Z) (x : ack),
+  oracle c out = true ->
+  match ledger [] [] [] [] c out with
+  | Some (_, _, s, r) => (count_occ adec (concat s) x <= count_occ adec r x)%nat
+  | None => False
+  end.
+Proof. exact oracle_sound_never_twice. Qed.
+Print Assumptions C36_oracle_sound_never_twice.
 
 (* The executable oracle used on the implementation's observations holds on the model for every
    operation sequence (no validity hypothesis is needed: every sequence is a valid history). *)
